@@ -200,6 +200,9 @@ func genC03(r *rand.Rand, tier string, env *Env) []Case {
 		if chance(r, 0.4) {
 			addNestedDefs(r, p) // chains of definitions: the two map loops of expandDefinitions
 		}
+		if i%5 == 2 {
+			p = genExceptScenario(r) // the line map of include-except and its sort
+		}
 		gargs := p.genOp().Args
 		rep := bytes.Repeat([]byte{'x'}, reps)
 		c := Case{Kind: "program", Ops: []Op{p.parseOp(), p.genOp()}, Oracles: []Op{{"c03.repeat", append([][]byte{rep}, gargs...)}}}
